@@ -18,7 +18,7 @@ CFG = {'lean_modules': ['ObiVerif.Props.C02'],
          'second round: op obik = the real __match__key__ / ParseFastSeqOBIHeader on every string of length <=3 (quick) / <=4 (thorough) over a Z blank tab = _ 1 ; { . plus a '
          'corpus and 200 random texts; op cli = files of 1..6 generated records written by the real Format*Batch, piped through the real obiconvert as a '
          'subprocess (built from the tree under check) and through it again, x {file argument, stdin} x {-Z (gunzipped by the harness), plain} x {--solexa on a '
-         'file written with offset 64 (file argument only)}, compared byte for byte (29 files quick, 165 per seed thorough); non-trivial = distinct well-formed case',
+         'file written with offset 64 (file argument only)}, compared byte for byte (34 files quick, 170 per seed thorough); third pass: op txt = ANY text through the real FastaChunkParser / FastqChunkParser(shift, true) (every text of length <=6 (quick) / <=7 (thorough) starting with > over > a LF blank 1, starting with @ over @ a LF blank + 1; a corpus of 55 multi-record / CR LF / blank-line / cut / bad-symbol texts; 600 (quick) / 6000 per seed (thorough) random texts of 1..4 records assembled from pieces (CR, CR LF, blank lines, upper case, text on the + line, quality line one byte short or long) then cut / one byte replaced / one byte inserted), records compared field by field; op q also for the offsets 14, 172 (round trip demanded), 13, 173, 0, 255, 10, 100, 127, 128, 163 and mixed pairs, rt also with offsets 14 / 172; cli also with --solexa through stdin (qualities 0..63) and flag g = the gzip bytes of the first pass fed unchanged to the second (file .gz or stdin); op obirt = 40 value classes through FormatFastSeqOBIHeader -> ParseFastSeqOBIHeader, OBSERVED ONLY (statistics, no oracle); non-trivial = distinct well-formed case',
  'technique': 'Lean 4 theorems on a transcription of the scanner, the writers, the two parser state machines and a model of the JSON encoder / decoder '
               '(all strings, nestings, lengths, quality bytes, shifts) + differential correspondence with the real code: the model prints the JSON header '
               'itself and decodes it itself (same written bytes, same decoded value by digest) + record-equality, write-read-write and '
@@ -56,7 +56,7 @@ CFG = {'lean_modules': ['ObiVerif.Props.C02'],
                '(3) Model/ObiHeader.lean transcribes __match__key__ and the entry of ParseOBIFeatures; obi_on_empty, obi_no_key, guessed_is_json_obi, '
                'write_read_fasta_guessed_obi_json / _fastq_: on everything the JSON writer prints the guessed parser is the JSON parser, with NO hypothesis on the '
                'OBI-format parser left. (4) shift_range_ok / shift_outside_range_bad: the FASTQ round trips hold for every quality offset 14..172 and for no other '
-               '(write_read_fastq_many_anyshift_json); solexa_then_fixed (read 64, write 33, then a fixed point).',
+               '(write_read_fastq_many_anyshift_json); solexa_then_fixed (read 64, write 33, then a fixed point). THIRD PASS. (1) fasta_machine_is_structural: parseFasta text = readFastaManyS text for EVERY text (any number of records; records delivered, the incomplete record dropped at the end of the text, Fatalf and the panic on a text shorter than two bytes included), where readFastaManyS (Lemmas/HeaderMany.lean) is written with splitTitle / unfold / takeWhile / dropWhile only: title line up to the first end of line, body up to the next > which must follow an end of line and a non-empty sequence; fastq_machine_is_structural: parseFastq sh true text = readFastqManyS sh text for every text and every offset (title line, one sequence line whose first byte is taken unchecked, + line, ends of line skipped, quality line of the same length, next @). Both are EQUALITIES (both directions, errors included) proved by induction over the bytes from an arbitrary machine state with arbitrary stale buffers and any records already delivered (fa_many, fq_many), so no buffer leaks from one record to the next. readFasta_structural / readFastq_structural restate the whole readers, write_read_fasta_many_structural_json / write_read_fastq_many_structural_json (offsets 14..172) transfer the round trips to the structural reading: only the machines remain in the trusted reading, and they are compared with the real parsers on arbitrary texts (op txt). (2) int_in_range_is_float64 / int_beyond_range_not_float64: every |i| <= 2^53 is m*2^e with m < 2^53 (a float64), 2^53+1 is not — the range of the property text is exactly the range where the float64 read back has the value of the int. Which floats change kind on re-read: NONE (reread_identical_iff, narrowing_asis_identity: the loop assigns the float64 back), 3.0 is printed 3 and read as the float64 3; exactly the ints change kind; allowed (numbers compared by value).',
  'level_note': 'Trusted: Lean kernel; the transcriptions Model/Header.lean, Model/JsonNum.lean, Model/ObiHeader.lean (scanner, strings.TrimSpace, FormatFasta folding, _formatFastq, QualitiesString, '
                'both chunk-parser state machines, ParseFastSeqJsonHeader, ParseGuessedFastSeqHeader dispatch) and Model/Json.lean. '
                'Numbers: a number is its decimal literal (value = the rational it denotes; canonical positional string for comparison). The choice f/e of '
@@ -70,16 +70,22 @@ CFG = {'lean_modules': ['ObiVerif.Props.C02'],
                'The decoder model is a strict RFC 8259 parser of compact texts; texts it rejects (white space between tokens, surrogate \\u escapes, raw control '
                'characters, and — by a driver guard — duplicate keys, non-string definition) fall back to go-json\'s answer passed as a table (about 6% of the '
                'hdr cases, none of the writer-produced headers); go-json accepting exactly RFC 8259 is not claimed. '
-               'Refinement (round 2) is for texts on which the machine returns ONE record; a refinement for several records per text (split at EOL > / @) is not stated — '
-               'the many-record theorems are on the machines directly. Numbers (round 2): a float64 is its shortest decimal digits (strconv\'s, data: the driver reads them '
+               'Refinement: since the third pass an equality for every text (several records included); parseFastq with with_quality = false (not used by the readers of the property) is not covered by it. '
+               'Numbers (round 2): a float64 is its shortest decimal digits (strconv\'s, data: the driver reads them '
                'from FormatFloat(x, e) and refuses the case unless they are in normal form and fmtFloat reprints go-json\'s bytes); the rounding decimal -> float64 is '
                'not modelled, so "an int is read back as the float64 of the same value" is exact on the decimal and needs |i| <= 2^53 for the float64 (IEEE-754, '
                'trusted; generated ints stop at +-2^53). Kinds are tied by a second, kind-aware digest of what the real reader stored (every number float64). '
                'OBI-format headers: only __match__key__ and the no-key path are modelled (what follows a key — regular expressions, go-json on dict values — is the '
-               'parameter `rest`); the OBI writer/reader round trip (obiconvert -O) is NOT covered: the property text is about the default JSON title lines. '
+               'parameter `rest`); the OBI writer/reader round trip (obiconvert -O) is OUT OF SCOPE by decision: the property text is about the default JSON title lines; it is only OBSERVED (op obirt, no oracle, no model): '
+               'same = int, integral float64 < 1e21, bool, plain strings (blank, =, ", apostrophe, {, non-ASCII inside), empty string, map[string]int/string/interface{}, keys with - . _, definition; '
+               'changed = float >= 1e21, string with ; or surrounded by blanks or looking like a number / true / T / a JSON object, lists, nil, apostrophe inside a map value, a definition looking like key=value; '
+               'lost = NON-INTEGRAL float64 (ParseOBIFeatures stores a float64 only when it is integral: missing else, notes/patches/C02-obi-float-dropped.note), keys with a blank or starting with a digit. '
                'Command line (op cli): the model predicts the bytes obiconvert prints (chunk parser + guessed parser + writer) and that a second pass is the identity; '
                'stdin is read by the C reader kseq (property C17), not by the Go chunk parsers — agreement is observed, not modelled; --solexa is exercised with a '
-               'file argument only: through stdin kseq drops quality bytes above 127 (offset 64 with quality >= 64), see notes/patches/C02-kseq-highbyte.note. '
+               'file argument for every quality and through stdin for the qualities 0..63 only: kseq keeps the quality bytes 33..127, offset 64 with quality >= 64 makes it stop with a fatal error '
+               '(notes/patches/C02-kseq-highbyte.note; not reachable from the command line, which writes offset 33 only). '
+               'Finding C02-format-guess-csv (open, signature cli.(fasta|fastq).format-guess): the format guesser (universal_read.go, anchors of C01) can take a FASTA/FASTQ file printed by obiconvert for text/csv '
+               'when it is given back as a file argument (fatal "Sequence  is empty"); reported only when the same run is right with --fasta/--fastq forced; the round trip then goes on with the format forced; repaired in the working tree by the C01 patch notes/patches/C01-sniff-csv-asked-last.diff (the case line stays in the corpus). '
                'The chunk splitting of multi-record files (C01) is outside this property. Values outside the stated universe (ints beyond 2^53, '
                'NaN/Inf, invalid UTF-8 in annotation values) are not generated; an empty sequence makes both writers Fatalf (modelled, outside the property).',
  'trusted_base': LEAN_TB + ['Go strconv shortest float formatting / ParseFloat (data for the model; round trip tied differentially)',
@@ -88,7 +94,7 @@ CFG = {'lean_modules': ['ObiVerif.Props.C02'],
                             'Go strings.TrimSpace / unicode.IsSpace (transcribed from the documentation, exercised by the correspondence)',
                             'harness canonical by-value dump of annotation maps (FNV-1a digest) and its kind-aware variant, recomputed independently by the model driver',
                             'IEEE-754: every integer |i| <= 2^53 is a float64 (the model compares decimal values)',
-                            'op cli: os/exec, compress/gzip of the Go standard library; the C reader kseq on stdin (property C17)'],
+                            'op cli: os/exec, compress/gzip of the Go standard library; the C reader kseq on stdin (property C17); the format guesser / gzip reader of the command (property C01)'],
  'modelled': 'pkg/obiformats fastseq_json_header.go (_parse_json_header_ scanner + ParseFastSeqJsonHeader, FormatFastSeqJsonHeader), fastseq_header.go '
              '(ParseGuessedFastSeqHeader dispatch), fastseq_write_fasta.go (FormatFasta/FormatFastaBatch incl. empty-sequence Fatalf), fastseq_write_fastq.go '
              '(_formatFastq/FormatFastqBatch), fastaseq_read.go (FastaChunkParser), fastqseq_read.go (FastqChunkParser, _storeSequenceQuality); pkg/obiseq '
